@@ -92,7 +92,70 @@ def check_case(case):
     if case.get("kind") in ("hist", "aug"):
         return probes.run(case, PROPERTY_ID)
     return {"exact": _exact, "float": _float, "power": _power, "unit3": _unit3, "rates": _rates, "explog": _explog,
-            "dual": _dual, "dual_exact": _dual_exact, "symbolic": _symbolic}[case["kind"]](case)
+            "dual": _dual, "dual_exact": _dual_exact, "symbolic": _symbolic, "qdtype": _qdtype}[case["kind"]](case)
+
+
+QDTYPES = ["float32", "int64", "int32", "int16", "int8", "uint8", "uint16"]
+
+
+def s_qdtype():
+    comp = st.integers(-9, 9)
+    return st.fixed_dictionaries({"kind": st.just("qdtype"), "dtype": st.sampled_from(QDTYPES), "p": st.lists(comp, min_size=4, max_size=4),
+                                  "q": st.lists(comp, min_size=4, max_size=4), "n": st.integers(-3, 3)})
+
+
+def gen_qdtype(tier):
+    for dt in QDTYPES:
+        for p, q in (([1, 2, 3, 4], [2, 1, 4, 3]), ([1, -2, 3, -4], [-2, 5, 1, 3]), ([0, 7, 0, 2], [3, 0, 6, 1]), ([5, 9, 9, 8], [9, 7, 8, 9])):
+            for n in (2, -1, 3):
+                yield {"kind": "qdtype", "dtype": dt, "p": p, "q": q, "n": n}
+
+
+def _qdtype(case):
+    """'for all real components': the same 4-tuples held in arrays of any real element type (small integers, exactly
+    representable, products far from overflow of the floating-point path) obey the same identities"""
+    dt = np.dtype(case["dtype"])
+    p, q = [float(x) for x in case["p"]], [float(x) for x in case["q"]]
+    if dt.kind == "u":
+        p, q = [abs(x) for x in p], [abs(x) for x in q]
+    pa, qa = np.array(p, dtype=dt), np.array(q, dtype=dt)
+    pf, qf = np.array(p), np.array(q)
+    c = Checker("qdtype", dtype=case["dtype"])
+    b = L.base
+    n = case["n"]
+    npq = max(1.0, float(np.linalg.norm(pf))), max(1.0, float(np.linalg.norm(qf)))
+
+    def pw(v, k):
+        out = np.array([1.0, 0, 0, 0])
+        for _ in range(abs(k)):
+            out = refs.qmul(out, v)
+        return refs.qconj(out) if k < 0 else out
+    for site, f, want, sc in (
+            ("conj", lambda: b.conj(pa.copy()), refs.qconj(pf), npq[0]),
+            ("qqmul", lambda: b.qqmul(pa.copy(), qa.copy()), refs.qmul(pf, qf), npq[0] * npq[1]),
+            ("qnorm", lambda: b.qnorm(pa.copy()), float(np.linalg.norm(pf)), npq[0]),
+            ("inner", lambda: b.inner(pa.copy(), qa.copy()), float(np.dot(pf, qf)), npq[0] * npq[1]),
+            ("qvmul", lambda: b.qvmul(pa.copy(), qa[1:].copy()), refs.qmul(refs.qmul(pf, np.r_[0.0, qf[1:]]), refs.qconj(pf))[1:], npq[0] ** 2 * npq[1]),
+            ("qpow", lambda: b.qpow(pa.copy(), n), pw(pf, n), npq[0] ** abs(n)),
+            ("matrix", lambda: b.matrix(pa.copy()) @ qf, refs.qmul(pf, qf), npq[0] * npq[1]),
+            ("Quaternion.conj", lambda: L.Quaternion(pa.copy()).conj().vec, refs.qconj(pf), npq[0]),
+            ("Quaternion.mul", lambda: (L.Quaternion(pa.copy()) * L.Quaternion(qa.copy())).vec, refs.qmul(pf, qf), npq[0] * npq[1]),
+            ("Quaternion.norm", lambda: L.Quaternion(pa.copy()).norm(), float(np.linalg.norm(pf)), npq[0]),
+            ("Quaternion.inner", lambda: L.Quaternion(pa.copy()).inner(L.Quaternion(qa.copy())), float(np.dot(pf, qf)), npq[0] * npq[1]),
+            ("Quaternion**n", lambda: (L.Quaternion(pa.copy()) ** n).vec, pw(pf, n), npq[0] ** abs(n)),
+            ("Quaternion.q*conj(q)", lambda: (L.Quaternion(pa.copy()) * L.Quaternion(pa.copy()).conj()).vec, np.r_[float(np.dot(pf, pf)), 0, 0, 0], npq[0] ** 2),
+            ("DualQuaternion.conj", lambda: L.DualQuaternion(L.Quaternion(pa.copy()), L.Quaternion(qa.copy())).conj().vec, np.r_[refs.qconj(pf), refs.qconj(qf)], max(npq)),
+            ("DualQuaternion(8).vec", lambda: L.DualQuaternion(np.r_[pa, qa]).vec, np.r_[pf, qf], max(npq))):
+        ok, got = c.lib(site, f)
+        if ok:
+            try:
+                g = np.asarray(got, dtype=float)
+            except Exception:  # noqa
+                c.fail(site + "/numeric", "%s returned %r" % (site, got))
+                continue
+            c.eq(site + "/value", g, want, 1e-9, sc)
+    c.eq("argument_untouched", pa.astype(float), pf, 0)
+    return c.out
 
 
 def _obj(v):
@@ -484,6 +547,9 @@ def classify(case):
         lab["nontrivial"] = _distinct_nonzero(case["p"]) and _distinct_nonzero(case["q"])
     elif k == "rates":
         lab["nontrivial"] = _distinct_nonzero(case["q"]) and _distinct_nonzero(case["w"])
+    elif k == "qdtype":
+        lab["nontrivial"] = True
+        lab["dtype:" + case["dtype"]] = True
     elif k == "explog":
         lab["nontrivial"] = all(case["vdir"])
         lab["small_vector_part"] = case["ratio"] < 1e-3
@@ -503,5 +569,7 @@ def subchecks(tier):
         Sub("rates", strategy=s_rates(), n=(400, 8000), shards=(2, 4)),
         Sub("explog", strategy=s_explog(), n=(500, 10000), shards=(2, 8)),
         Sub("dual", strategy=s_dual(), n=(400, 8000), shards=(4, 8)),
+        Sub("element_types", gen=gen_qdtype, shards=(2, 4)),
+        Sub("element_type_values", strategy=s_qdtype(), n=(150, 3000), shards=(2, 8)),
         *probes.subs(PROPERTY_ID),
     ]
